@@ -622,8 +622,10 @@ func (r *prepareRequest) IsPrepareRequest() bool {
 	return true
 }
 
-func (r *prepareRequest) OnClose(err error) {
-	r.origRequest.OnClose(err)
+func (r *prepareRequest) OnClose(_ error) {
+	// The connection was lost while re-preparing, the original request was answered with an "unprepared" error and has
+	// not been executed. It's safe to give up on this host and try the next one, whether it's idempotent or not.
+	r.origRequest.Execute(true)
 }
 
 func (r *prepareRequest) OnResult(raw *frame.RawFrame) {
